@@ -405,11 +405,14 @@ class EngineC18:
                 # margins shrink near convergence a last-bit difference between the dense and the sparse
                 # arithmetic legitimately flips one and the iterates part company (observed: identical to
                 # 1e-16 for two outer iterations, 8.6e-4 apart after the third). Representation
-                # independence is therefore compared on the first outer iteration with few inner steps,
+                # independence is therefore compared on the first outer iteration with one inner step,
                 # where every decision has an O(1) margin.
+                # (as built, after a thorough-tier false alarm: already the *second* inner iteration can flip --
+                # PQNR's L-BFGS update tests quantities for exact zero -- 1.3e-2 apart with 2 inner iterations,
+                # 1e-15 with 1 or 3; the relation is therefore compared after exactly one inner iteration.)
                 init = dict(init)
                 init["maxiters"] = 1
-                init["maxinneriters"] = min(2, init["maxinneriters"])
+                init["maxinneriters"] = 1
         elif op == "R6":
             if init.get("init_kind") in ("random", "nvecs") and alg != "hosvd":
                 # scale relation needs the same explicit start: take the one the base run reports
@@ -506,7 +509,14 @@ class EngineC18:
 
     def _fresh_interpreter(self, init, V, res) -> Optional[Violation]:
         """R1 across interpreters: same seed in a fresh process under another PYTHONHASHSEED."""
-        base = self._call(init, {})
+        try:
+            base = self._call(init, {})
+        except AssertionError as e:
+            if str(e) == PQNR_KNOWN_MSG:
+                raise
+            raise Skip("base_run_raises")
+        except Exception:  # noqa: BLE001
+            raise Skip("base_run_raises")
         env = dict(os.environ)
         env["PYTHONHASHSEED"] = "12345"
         code = (
